@@ -67,8 +67,8 @@ impl Property for C20 {
     }
     fn plan(&self, suite: SuiteId, tier: Tier) -> Vec<(u32, u32)> {
         let per = match (tier, suite.slow()) {
-            (Tier::Quick, false) => 20,
-            (Tier::Quick, true) => 5,
+            (Tier::Quick, false) => 150,
+            (Tier::Quick, true) => 30,
             (Tier::Thorough, false) => 500,
             (Tier::Thorough, true) => 100,
         };
